@@ -24,7 +24,7 @@ def conditions(tier, seed):
                     bound='p_error on end of input and on an arbitrary token (type <= 3 chars, text <= 4 chars)',
                     symbolic=['token type', 'line', 'offset', 'text'], case_split=['kind']))
     out.append(Cond('unit_t_error', 'c13_pos.py', {}, func='check_t_error', timeout=t,
-                    bound='t_error on 14 illegal characters x rest of input 0..2 chars x line/offset pool', case_split=['character', 'rest', 'line', 'offset']))
+                    bound='t_error on 20 illegal characters (incl. form feed, NBSP, NEL, EM SPACE) x 5 rests of input (nothing, text, blanks) x line/offset pool', case_split=['character', 'rest', 'line', 'offset']))
     ns = 8
     for sh in range(ns):
         out.append(Cond('unit_token_rules_s%d' % sh, 'c13_pos.py', dict(maxlen=3 if q else 4, shard=sh, nshards=ns), func='check_token', timeout=t,
@@ -43,7 +43,7 @@ def conditions(tier, seed):
                         case_split=['program', 'gap', 'layout', 'background layout'], realised=['program text'], twin=(sh == picks[0])))
     for sh in picks:
         out.append(Cond('total_s%d' % sh, 'c13_e2e.py', dict(shard=sh, nshards=ns), func='check_total', timeout=900 if q else 3000,
-                        bound='programs %d mod %d of the corpus x every token x 16 single edits (delete, duplicate, swap, truncate, illegal characters, unclosed string / phrase / comment): '
+                        bound='programs %d mod %d of the corpus x every token x 19 single edits (delete, duplicate, swap, truncate, illegal characters incl. form feed / NBSP at the end of the text, unclosed string / phrase / comment): '
                               'returns a tree or raises ParseException within 20 s; positions of what parses are consistent with the edited text' % (sh, ns),
                         case_split=['program', 'token', 'edit'], realised=['program text'], twin=(sh == picks[0])))
     for sh in picks[:2] if q else picks:
